@@ -145,17 +145,40 @@ def model_cases(draw, tier):
 @st.composite
 def long_model_cases(draw, tier):
     """One long dimension against <= 3 (tall / wide), generic full-rank entries."""
-    Lg, sh = draw(gen.long_dim(cap=257 if tier == "quick" else 520)), draw(st.integers(1, 3))
-    A, pat = draw(gen.long_qarray(Lg, sh, draw(st.sampled_from(["generic", "int"]))))
-    if draw(st.booleans()):
-        A = np.ascontiguousarray(np.swapaxes(A, 0, 1))
-    A = A / 8.0
+    shape_kind = draw(st.sampled_from(["long", "long", "aspect_illcond", "aspect_illcond", "both_large"]))
     order = draw(st.sampled_from([2, 2, 3]))
+    Kmax = 10
+    if shape_kind == "long":
+        Lg, sh = draw(gen.long_dim(cap=257 if tier == "quick" else 520)), draw(st.integers(1, 3))
+        A, pat = draw(gen.long_qarray(Lg, sh, draw(st.sampled_from(["generic", "int"]))))
+        A = A / 8.0
+    elif shape_kind == "aspect_illcond":
+        # strongly rectangular (aspect ratio >= 4) AND ill conditioned through its singular vectors (not a row or
+        # column scaling), run long enough for the small singular directions to matter
+        sh = draw(st.integers(2, 4))
+        Lg = sh * draw(st.integers(4, 6))
+        c = draw(st.sampled_from([1e5, 1e6, 1e7, 1e8]))
+        sv = np.array([c ** (-(i / (sh - 1))) for i in range(sh)])
+        A = draw(gen.matrix_with_svals(Lg, sh, sv))
+        pat = f"svals:cond{c:g}"
+        Kmax = 70
+    else:
+        # both dimensions past the blocking size 64 (tall, generic, well conditioned), run past convergence
+        m_, n_ = draw(st.sampled_from([(80, 64), (96, 65), (70, 66)]))
+        A, pat = draw(gen.long_qarray(m_, n_, "generic"))
+        A = A / 8.0
+        Kmax = 30
+    if draw(st.booleans()):
+        A = np.ascontiguousarray(ref.conjT(A))
     gamma = draw(st.sampled_from(GAMMAS)) if order == 2 else 1.0
-    k = draw(st.integers(1, 10))
-    kk = draw(st.integers(k, 10))
+    k = draw(st.integers(1, Kmax))
+    if shape_kind != "long":
+        k = draw(st.integers(Kmax // 2, Kmax))       # long runs: the late sweeps are where instabilities grow
+        if order == 2:
+            gamma = draw(st.sampled_from([1.0, 1.0, 1.0, 0.9]))
+    kk = draw(st.integers(k, Kmax))
     return {"A": A, "kind": "pattern:" + pat, "order": order, "gamma": gamma, "k": k, "K": kk,
-            "compute_residuals": draw(st.booleans()) if order == 2 else True,
+            "compute_residuals": draw(st.sampled_from([False, False, True])) if order == 2 else True,
             "sparse": draw(st.booleans()) if order == 2 else False,
             "warmup": draw(st.sampled_from([None, None, "same"]))}
 
@@ -342,7 +365,7 @@ PROPERTY = Property(
     rule="rank-deficient input, or m < n, or cond(A) > 10, or a repeated/clustered singular value",
     clauses=[
         Clause("spectral_model", check_model, strategy=model_cases, budget={"quick": 900, "thorough": 12000}),
-        Clause("spectral_model_long_dimension", check_model, strategy=long_model_cases, budget={"quick": 24, "thorough": 240},
+        Clause("spectral_model_long_dimension", check_model, strategy=long_model_cases, budget={"quick": 48, "thorough": 400},
                shrink=False),
         Clause("stop_on_tolerance", check_stop, strategy=stop_cases, budget={"quick": 300, "thorough": 4000}),
         Clause("beyond_safe_budget", check_beyond, strategy=beyond_cases, budget={"quick": 60, "thorough": 600}),
